@@ -170,14 +170,19 @@ def main(argv=None):
             lines.append("KNOWN-FINDING: property=%s %s" % (pid, r["finding"]))
     for r in by.get("inconclusive", []):
         lines.append("INCONCLUSIVE obligation=%s reason=%s" % (r["id"], str(r.get("detail", ""))[:200].replace("\n", " ")))
+    shown = 0
     for r in violated:
         path = os.path.join(VERIF, "replays", "%s-%s.json" % (pid, r["hash"]))
         with open(path, "w") as f:
             json.dump({"property": pid, "obligation": r["id"], "detail": r.get("detail", ""),
                        "fn": r.get("replay", {}).get("fn"), "inputs": r.get("replay", {}).get("inputs"),
                        "how": "cd /verif && ./vcheck %s --replay %s" % (pid, path)}, f, indent=1, default=str)
-        lines.append("VIOLATION property=%s replay=%s   # obligation %s: %s"
-                     % (pid, path, r["id"], str(r.get("detail", ""))[:300].replace("\n", " ")))
+        shown += 1
+        if shown <= 12:
+            lines.append("VIOLATION property=%s replay=%s   # obligation %s: %s"
+                         % (pid, path, r["id"], str(r.get("detail", ""))[:300].replace("\n", " ")))
+    if shown > 12:
+        lines.append("... %d further violated obligations (replay files written under /verif/replays)" % (shown - 12))
 
     n_ob = len(results)
     n_dis = len(by.get("discharged", []))
